@@ -1423,3 +1423,69 @@ func checkTargetPrintThroughLineBuffer(p *core.Prog, r *core.Result, rule string
 	}
 	r.Floor(rule, n, 1, "Print callbacks of target threads")
 }
+
+// checkLabelErrorsNotDropped (R6.14): a label that could not be formed is not a label. In package dawn every call of a
+// label constructor that can fail (label.Join, Parse, New, Clean, (*Label).RelativeTo) has its error looked at before
+// the result is used: the package walk joins directory names onto package paths, and a name no label can contain (a
+// ':') gives the empty package - the recursive walk then slices path[2:] of "" and Load crashes on an acyclic project.
+// Exempt, by name and with the reason: the RelativeTo call of (*module).loadModule, whose operands are both results of
+// label.Clean (R12.6), for which Join cannot fail.
+func checkLabelErrorsNotDropped(p *core.Prog, r *core.Result, rule string) {
+	exempt := map[string]string{
+		"(*dawn.module).loadModule#RelativeTo": "both operands are Clean results (the parsed label's package and the module's own package, R12.6): Join of two clean packages cannot fail",
+	}
+	n := 0
+	seen := map[string]int{}
+	for _, fn := range p.ModuleFuncs() {
+		if fn.Pkg == nil || fn.Pkg.Pkg.Path() != pkgRoot || fn.Blocks == nil {
+			continue
+		}
+		for _, c := range core.Calls(fn) {
+			call, ok := c.(*ssa.Call)
+			if !ok {
+				continue
+			}
+			cal := core.Callee(call)
+			if cal == nil || cal.Pkg == nil || cal.Pkg.Pkg.Path() != pkgLabel {
+				continue
+			}
+			res := cal.Signature.Results()
+			if res.Len() != 2 || !isErrorType(res.At(1).Type()) {
+				continue
+			}
+			n++
+			key := fmt.Sprintf("%s#%s", fname(fn), cal.Name())
+			seen[key]++
+			construct := key
+			if seen[key] > 1 {
+				construct = fmt.Sprintf("%s-%d", key, seen[key])
+			}
+			errv := extractOf(call, 1)
+			used := false
+			if errv != nil {
+				for _, ref := range *errv.Referrers() {
+					if _, dbg := ref.(*ssa.DebugRef); !dbg {
+						used = true
+					}
+				}
+			}
+			resultUsed := false
+			if v := extractOf(call, 0); v != nil {
+				for _, ref := range *v.Referrers() {
+					if _, dbg := ref.(*ssa.DebugRef); !dbg {
+						resultUsed = true
+					}
+				}
+			}
+			switch {
+			case used || !resultUsed:
+				r.OK(rule, construct, p.InstrPos(call), "the error of %s is looked at", cal.Name())
+			case exempt[key] != "":
+				r.OK(rule, construct, p.InstrPos(call), "exempt: %s", exempt[key])
+			default:
+				r.Bad(rule, construct, p.InstrPos(call), "the error of label.%s is dropped and its result used: for an operand no label can contain (a directory name with a ':') the result is the zero value, and what follows works on a package that does not exist - the package walk slices path[2:] of the empty package and Load crashes on an acyclic project", cal.Name())
+			}
+		}
+	}
+	r.Floor(rule, n, 5, "fallible label constructors called in package dawn")
+}
